@@ -1027,6 +1027,11 @@ impl<'a> Evaluator<'a> {
                             PatM::No => Ok(Val::Bool(true)),
                             PatM::Unknown(s) => Err(s),
                         },
+                        // non-short-circuit logic on booleans
+                        BitOr(_) | BitAnd(_) | BitXor(_) if matches!((&l, &r), (Val::Bool(_), Val::Bool(_))) => {
+                            let (Val::Bool(x), Val::Bool(y)) = (&l, &r) else { unreachable!() };
+                            Ok(Val::Bool(match &b.op { BitOr(_) => *x | *y, BitAnd(_) => *x & *y, _ => *x ^ *y }))
+                        }
                         o => Err(format!("unsupported op {} on {} , {}", tok(o), l.show(), r.show())),
                     },
                 }
